@@ -502,3 +502,34 @@ func verifH_C04_style_table() {
 	}
 	verifReach("end")
 }
+
+//verif:harness id=C04 tier=quick,thorough witness=end bounds="conforming variations of the conforming document that must stay accepted: a server URL using one variable twice, a server variable with an enum containing its default, an operation-level empty security list, a response with only a default entry, a schema with nullable and an enum, a parameter with both example-free content and required false, a path item with only parameters"
+func verifH_C04_conforming_variants() {
+	doc := verifLoadBase()
+	if doc == nil {
+		return
+	}
+	v := verifChoose("variant", 7)
+	switch v {
+	case 0:
+		doc.Servers = Servers{{URL: "https://{v}.example.com/{v}", Variables: map[string]*ServerVariable{"v": {Default: "a"}}}}
+	case 1:
+		doc.Servers[0].Variables["h"].Enum = []string{"a", "b"}
+	case 2:
+		doc.Paths.Value("/a/{id}").Get.Security = &SecurityRequirements{}
+	case 3:
+		d := "d"
+		r := NewResponsesWithCapacity(1)
+		r.Set("default", &ResponseRef{Value: &Response{Description: &d}})
+		doc.Paths.Value("/a/{id}").Get.Responses = r
+	case 4:
+		doc.Components.Schemas["N"] = &SchemaRef{Value: &Schema{Type: &Types{"string"}, Nullable: true, Enum: []any{"a", nil}}}
+	case 5:
+		doc.Paths.Value("/a/{id}").Get.Parameters = append(doc.Paths.Value("/a/{id}").Get.Parameters, &ParameterRef{Value: &Parameter{Name: "opt", In: "cookie", Content: Content{"application/json": &MediaType{Schema: &SchemaRef{Value: &Schema{Type: &Types{"object"}}}}}}})
+	case 6:
+		doc.Paths.Set("/only/{id}", &PathItem{Parameters: Parameters{{Value: &Parameter{Name: "id", In: "path", Required: true, Schema: &SchemaRef{Value: &Schema{Type: &Types{"string"}}}}}}})
+	}
+	err := doc.Validate(context.Background())
+	verifAssert(err == nil, "C04 conforming variants: a document that satisfies the rules is accepted")
+	verifReach("end")
+}
